@@ -1007,7 +1007,44 @@ func (fr *Frame) execRange(st *State, s *ast.RangeStmt, label string) []Outcome 
 		// the visited set never exceeds what was in the map at some point; for maps not shrunk in the loop: seen ⊆ dom
 		out = append(out, Outcome{oNormal, "", x})
 	case *types.Chan:
-		fr.unsupported(s, "range over channel")
+		// for v := range ch: any number of iterations, each receiving an arbitrary element; the loop
+		// ends when the channel is closed (termination not claimed)
+		fr.evalIgnore(st, s.X)
+		lc.k = IntLit(0)
+		fr.checkInvs(st, lc, "entry", s)
+		head := st.Clone()
+		lc.frameKeys = fr.havocMods(head, ms)
+		k := Fresh("k", IntSort)
+		lc.k = k
+		head.Assume(Le(IntLit(0), k))
+		fr.assumeInvs(head, lc)
+		b := head.Clone()
+		more := Fresh("recvok", BoolSort)
+		b.Branch(more)
+		elem := Fresh("recv", e.sortOf(u.Elem()))
+		b.Assume(e.typeFacts(elem, u.Elem(), b))
+		bindKV(b, elem, nil)
+		if fr.fc != nil && fr.fn == fr.top.fn {
+			// `assume loopN: expr`: listed assumption about the element received in an iteration
+			for _, c := range fr.fc.Assumes[fmt.Sprintf("loop%d", ord)] {
+				b.Assume(fr.top.evalSpecBool(b, c.Expr, nil, fr.top.entry))
+			}
+		}
+		for _, o := range fr.execBlock(b, s.Body.List) {
+			switch {
+			case o.kind == oNormal, o.kind == oContinue && (o.label == "" || o.label == label):
+				lc2 := *lc
+				lc2.k = Add(k, IntLit(1))
+				fr.checkInvs(o.st, &lc2, "preserve", s)
+			case o.kind == oBreak && (o.label == "" || o.label == label):
+				out = append(out, Outcome{oNormal, "", o.st})
+			default:
+				out = append(out, o)
+			}
+		}
+		x := head.Clone()
+		x.Branch(Not(more))
+		out = append(out, Outcome{oNormal, "", x})
 	default:
 		fr.unsupported(s, "range over %s", xt)
 	}
